@@ -66,7 +66,7 @@ GenStr(c)  == IF Pick(1..2) = 1 THEN StrOp(c) ELSE [k |-> "scat", l |-> StrOp(c)
 
 \* forms of the index of "x, m[x] = a, b": FALSE the key is written ((x)%4+4)%4, TRUE it is written x
 \* (TRUE is held back until the repair of the late evaluation of a plain index lands in /repo)
-BareForms == {FALSE}
+BareForms == {FALSE, TRUE}
 \* recover() in the body of a function literal held in a variable (h := func() { recover() }; defer h()):
 \* FALSE holds the form back until the repair lands in /repo
 ClobForms == FALSE
